@@ -21,6 +21,12 @@ static inline _Bool vopt_has(const vopt_scope* o) { return o->has; }
 #define vopt_CMsgPackReadBinaryScope_IMsgPackReader_has_value___k vopt_has
 typedef struct { int _opaque; } std_tuple_vstr_c8_vsv_c8_i64_u64_f32_f64_CBinTimestamp;
 #include "gen.h"
+#ifndef ValueType_BinaryArray   /* emitted by the extractor only when the extracted code mentions it (enum ValueType of msgpack_archive.h: Array = 8, BinaryArray = 9) */
+#define ValueType_BinaryArray (9)
+#endif
+#ifndef ValueType_Array
+#define ValueType_Array (8)
+#endif
 /* std::make_optional<Scope>(...) is extracted as the scope's real constructor followed by this model call: the child is described by what its constructor stored */
 static inline vopt_scope vopt_CMsgPackReadArrayScope_IMsgPackReader_make(struct CMsgPackReadArrayScope_IMsgPackReader* t) { vopt_scope o; o.has = 1; o.size = t->mSize; o.reader = t->mMsgPackReader; o.parent = t->__base_CMsgPackScopeBase.mParentScope; __CPROVER_assert(t->mIndex == 0, "C05: a new child scope starts at element 0"); return o; }
 static unsigned long g_child_start;
@@ -43,9 +49,16 @@ _Bool IMsgPackReader_ReadValue__rb(struct IMsgPackReader* r, _Bool* v) { _Bool o
 _Bool IMsgPackReader_ReadValue__rnp(struct IMsgPackReader* r, void** v) { return rd_one_value(); }
 _Bool IMsgPackReader_ReadValue__rvsv_c8(struct IMsgPackReader* r, vsv_c8* v) { _Bool ok = rd_one_value(); if (ok) { v->data = 0; v->size = nondet_size_t(); } return ok; }
 _Bool IMsgPackReader_ReadValue__rCBinTimestamp(struct IMsgPackReader* r, struct CBinTimestamp* v) { _Bool ok = rd_one_value(); if (ok) { v->Seconds = nondet_long(); v->Nanoseconds = nondet_int(); } return ok; }
-_Bool IMsgPackReader_ReadArraySize__ru64(struct IMsgPackReader* r, unsigned long* v) { _Bool ok = rd_one_value(); if (ok) *v = nondet_ulong(); return ok; }
+_Bool IMsgPackReader_ReadArraySize__ru64(struct IMsgPackReader* r, unsigned long* v);
 _Bool IMsgPackReader_ReadMapSize__ru64(struct IMsgPackReader* r, unsigned long* v) { _Bool ok = rd_one_value(); if (ok) *v = nondet_ulong(); return ok; }
-_Bool IMsgPackReader_ReadBinarySize__ru64(struct IMsgPackReader* r, unsigned long* v) { _Bool ok = rd_one_value(); if (ok) *v = nondet_ulong(); return ok; }
+/* the kind of the NEXT value (ghost): ReadValueType reports it without consuming anything (or raises on truncated input); a size request matches iff the kind is the requested one */
+static int g_next_kind; static unsigned g_peeks;
+int IMsgPackReader_ReadValueType(struct IMsgPackReader* r) { g_peeks++; if (nondet_bool()) { __verif_exc = EXC_ParsingException; return 0; } return g_next_kind; }
+static _Bool rd_one_sized(int kind) { g_calls++;
+  if (nondet_bool()) { __verif_exc = nondet_bool() ? EXC_ParsingException : EXC_SerializationException; return 0; }
+  g_consumed++; _Bool ok = g_next_kind == kind; g_next_kind = nondet_int(); return ok; }
+_Bool IMsgPackReader_ReadBinarySize__ru64(struct IMsgPackReader* r, unsigned long* v) { _Bool ok = rd_one_sized(ValueType_BinaryArray); if (ok) *v = nondet_ulong(); return ok; }
+_Bool IMsgPackReader_ReadArraySize__ru64(struct IMsgPackReader* r, unsigned long* v) { _Bool ok = rd_one_sized(ValueType_Array); if (ok) *v = nondet_ulong(); return ok; }
 char IMsgPackReader_ReadBinary(struct IMsgPackReader* r) { g_calls++; if (nondet_bool()) { __verif_exc = EXC_ParsingException; return 0; } g_consumed++; return nondet_char(); }
 /* constructor of a child object scope: remembers the reader position (start of the map) and starts without a current key */
 unsigned long IMsgPackReader_GetPosition___k(const struct IMsgPackReader* r) { g_child_start = nondet_ulong(); return g_child_start; }
@@ -57,7 +70,7 @@ static struct IMsgPackReader g_reader; static struct SerializationContext g_ctx;
 static void arr_init(ARR* s) {
   s->mMsgPackReader = &g_reader; s->__base_TArchiveScope.mSerializationContext = &g_ctx; s->__base_CMsgPackScopeBase.mParentScope = 0;
   s->mSize = nondet_ulong(); s->mIndex = nondet_ulong(); __CPROVER_assume(s->mIndex <= s->mSize);   /* scope invariant: index within the declared size */
-  g_consumed = nondet_size_t(); __CPROVER_assume(g_consumed < ((size_t)1 << 60)); g_calls = 0; __verif_exc = 0; __verif_exc_code = 0;
+  g_consumed = nondet_size_t(); __CPROVER_assume(g_consumed < ((size_t)1 << 60)); g_calls = 0; g_peeks = 0; g_next_kind = nondet_int(); __verif_exc = 0; __verif_exc_code = 0;
 }
 /* common postconditions of "load/open one element of an array scope" */
 #define ELEM_POST(s, i0, c0, ret, KF) \
@@ -80,7 +93,22 @@ void h_arr_value_ts(void) { ARR s; arr_init(&s); unsigned long i0 = s.mIndex; si
 void h_arr_open_##NAME(void) { ARR s; arr_init(&s); unsigned long i0 = s.mIndex; size_t c0 = g_consumed; \
   _Bool ret = verif_inst_arr_open_##NAME##__rCMsgPackReadArrayScope_IMsgPackReader(&s); \
   ELEM_POST(s, i0, c0, ret, KF) VERIF_CANARY(); }
-H_ARR_OPEN(array, "[KF-C05-array-skip-index] ") H_ARR_OPEN(object, "[KF-C05-array-skip-index] ") H_ARR_OPEN(binary, "[KF-C05-array-binary-index] ")
+H_ARR_OPEN(array, "[KF-C05-array-skip-index] ") H_ARR_OPEN(object, "[KF-C05-array-skip-index] ")
+/* OpenBinaryScope: a binary element is consumed (its head) and opened; any OTHER kind of value is left untouched for the array fallback of the generic loader */
+void h_arr_open_binary(void) { ARR s; arr_init(&s); unsigned long i0 = s.mIndex; size_t c0 = g_consumed; int kind = g_next_kind;
+  _Bool ret = verif_inst_arr_open_binary__rCMsgPackReadArrayScope_IMsgPackReader(&s);
+  VERIF_ASSERT("C05,C02", i0 < s.mSize || (__verif_exc == EXC_SerializationException && __verif_exc_code == SerializationErrorCode_OutOfRange && g_calls == 0 && g_peeks == 0 && s.mIndex == i0), "[KF-C05-array-binary-index] at the end of the array nothing is read and SerializationException(OutOfRange) is raised");
+  VERIF_ASSERT("C05", !(i0 < s.mSize && __verif_exc == 0) || (kind == ValueType_BinaryArray ? (ret && s.mIndex == i0 + 1 && g_consumed == c0 + 1) : (!ret && s.mIndex == i0 && g_consumed == c0)), "[KF-C05-array-binary-index] a binary element is opened and counted once; a value of any other kind is NOT consumed (it is left to the array fallback), index unchanged");
+  VERIF_ASSERT("C05,C20", !(i0 < s.mSize && __verif_exc != 0) || s.mIndex == i0, "a raising element load leaves the index unchanged");
+  VERIF_CANARY(); }
+/* the generic loader of a byte container (serialization_base_types.h:507-524) asks for a binary scope first and falls back to an array scope:
+   composed here from the two REAL scope methods in that order - together they consume exactly ONE element, whatever its kind */
+void h_arr_open_bytes(void) { ARR s; arr_init(&s); unsigned long i0 = s.mIndex; size_t c0 = g_consumed; __CPROVER_assume(i0 < s.mSize);
+  _Bool ret = verif_inst_arr_open_binary__rCMsgPackReadArrayScope_IMsgPackReader(&s);
+  if (__verif_exc == 0 && !ret) ret = verif_inst_arr_open_array__rCMsgPackReadArrayScope_IMsgPackReader(&s);
+  VERIF_ASSERT("C05", __verif_exc != 0 || (s.mIndex == i0 + 1 && g_consumed == c0 + 1), "[KF-C05-array-bytes-fallback] loading one byte-container element (binary scope, else array scope) consumes exactly that one element - also when it is mismatched, null or stored as an array - so the elements after it are still read");
+  VERIF_ASSERT("C05,C20", __verif_exc == 0 || s.mIndex == i0, "a raising element load leaves the index unchanged");
+  VERIF_CANARY(); }
 void h_arr_misc(void) { ARR s; arr_init(&s);
   VERIF_ASSERT("C05", verif_inst_arr_is_end__rkCMsgPackReadArrayScope_IMsgPackReader(&s) == (s.mIndex == s.mSize) && verif_inst_arr_estimated__rkCMsgPackReadArrayScope_IMsgPackReader(&s) == s.mSize && g_calls == 0, "IsEnd / GetEstimatedSize report index == size / the declared size without touching the reader");
   VERIF_CANARY(); }
@@ -96,6 +124,7 @@ for T in i32 u8 i64 f64 b sv nil ts:
 for T in array object:
   job entry=h_arr_open_{T} props=C05,C02,C20 mode=direct unwind=2 kf=KF-C05-array-skip-index
 job entry=h_arr_open_binary props=C05,C02,C20 mode=direct unwind=2 kf=KF-C05-array-binary-index
+job entry=h_arr_open_bytes props=C05,C20 mode=direct unwind=2 kf=KF-C05-array-bytes-fallback
 job entry=h_arr_misc props=C05 mode=direct unwind=2
 job entry=h_bin_value props=C05,C02 mode=direct unwind=2
 @*/
